@@ -61,8 +61,13 @@ Inductive op :=
 | Stop (cr : bool)
 | HostExit (exc : bool)
 | ResumeHost
-| LoopEnd.      (* the event loop runs its last iteration (start_blocking_portal: run_portal() has returned and
+| LoopEnd      (* the event loop runs its last iteration (start_blocking_portal: run_portal() has returned and
                    asyncio.run() is shutting down; the loop is not closed yet) *)
+| FutureCancelLoop (k : cid).
+                (* Future.cancel() on the future of call k executed IN THE EVENT-LOOP THREAD: by another call's
+                   callable, by a done-callback of another portal future ("first result wins"), by the host task.
+                   The done-callback `callback` then runs in the loop thread and cancels the call's scope at once
+                   (`if event_loop_thread_id == get_ident(): scope.cancel(...)`): nothing is marshalled. *)
 
 Inductive res :=
 | RIssued | RRefused            (* ThreadIssue: accepted / RuntimeError("This portal is not running") *)
@@ -344,6 +349,17 @@ Definition future_cancel (c : call) : call * res :=
   | _ => (c, RCancelFalse)
   end.
 
+(* Future.cancel() called in the event-loop thread *)
+Definition future_cancel_loop (c : call) : call * res :=
+  match c_fut c with
+  | CPending =>
+      let c1 := status_on_done (with_fcancel (with_fut c CCancelled)) in
+      let c2 := if andb (callback_registered c1) (c_captured c1) then with_scope_cancelled c1 else c1 in
+      (c2, RCancelTrue)
+  | CCancelled => (with_fcancel c, RCancelTrue)
+  | _ => (c, RCancelFalse)
+  end.
+
 Definition remove_cid (k : cid) (l : list cid) : list cid := filter (fun x => negb (Nat.eqb x k)) l.
 
 Definition is_nil {A} (l : list A) : bool := match l with [] => true | _ => false end.
@@ -453,6 +469,11 @@ Definition step (s : st) (o : op) : st * res :=
           else (s, RRejected)
       | _ => (s, RRejected)
       end
+  | FutureCancelLoop k =>
+      let c := calls s k in
+      if andb (handed_out c) (negb (loop_ended s)) then
+        let '(c', r) := future_cancel_loop c in (set_call s k c', r)
+      else (s, RRejected)
   | LoopEnd =>
       (* only after the portal's context has been left (run_portal() returned) *)
       if andb (is_left (host s)) (negb (loop_ended s)) then
@@ -570,6 +591,7 @@ Definition decode_op (code k a b c d : Z) : op :=
   | 6 => Stop (zb a)
   | 7 => HostExit (zb a)
   | 9 => LoopEnd
+  | 10 => FutureCancelLoop (zn k)
   | _ => ResumeHost
   end%Z.
 
